@@ -756,7 +756,9 @@ class Gen:
             elif a.kind == 'split_or_arm':
                 split_anns.append(a)
         if self.inject_false == region:
-            pending_inserts.append((ct[fp['bclose']].start, '\n    proof { assert(false); } // vacuity self-test\n', 'selftest'))
+            # vacuity self-test: `{ BODY }` -> `{ let __vac = { BODY }; proof { assert(false); } __vac }` (works for tail expressions too)
+            pending_inserts.append((ct[fp['bopen']].end, ' proof { assert(false); } let __vac = {', 'selftest'))
+            pending_inserts.append((ct[fp['bclose']].start, '\n    }; proof { assert(false); } __vac // vacuity self-test\n', 'selftest'))
         body_hi = fp['bclose']
         if it.opts.get('prefix'):
             # R6 async prefix: keep the body up to (excluding) the top-level statement that contains the first `.await`.
@@ -1100,7 +1102,8 @@ class Gen:
             apply_fx(sub, sct, fp['bopen'], fp['bclose'], it.opts['fx'].split(':', 1)[0], it.opts.get('fxcalls', '').split(','), inserts,
                      lambda pos, text: (pos, text))
         if self.inject_false == region:
-            inserts.append((sct[fp['bclose']].start, '\n    proof { assert(false); } // vacuity self-test\n'))
+            inserts.append((sct[fp['bopen']].end, ' proof { assert(false); } let __vac = {'))
+            inserts.append((sct[fp['bclose']].start, '\n    }; proof { assert(false); } __vac // vacuity self-test\n'))
         MARK = '\x00%d\x00'
         inserts.sort(key=lambda x: x[0])
         for n_, (pos, text) in enumerate(inserts):
